@@ -46,6 +46,14 @@ theorem xor_and_other (e f g : BitVec n) (hd : f &&& g = 0) : (e ^^^ f) &&& g = 
   revert h2
   cases e[i] <;> cases f[i] <;> cases g[i] <;> simp
 
+/-- Clearing a flag that is set: `&^` and `^` agree. -/
+theorem andnot_eq_xor (e f : BitVec n) (h : e &&& f = f) : e &&& ~~~f = e ^^^ f := by
+  ext i hi
+  have h2 := congrArg (fun x => x[i]) h
+  simp only [BitVec.getElem_and, BitVec.getElem_xor, BitVec.getElem_not] at h2 ⊢
+  revert h2
+  cases e[i] <;> cases f[i] <;> simp
+
 theorem zero_and (f : BitVec n) : (0 : BitVec n) &&& f = 0 := by
   ext i hi
   simp
@@ -99,7 +107,8 @@ theorem DelRead_facts (s : poller) :
           then (Ext.modify, [s.slot_Fd, Int.ofNat (s.slot_Events ^^^ PollerReadEvent).toNat])
           else (Ext.del, [s.slot_Fd])) :: s.calls) := by
   simp only [poller.DelRead, ext_eq]
-  by_cases h0 : s.slot_Events ^^^ PollerReadEvent = 0 <;> by_cases hf : s.slot_Events &&& PollerReadEvent = PollerReadEvent <;> simp_all
+  by_cases h0 : s.slot_Events ^^^ PollerReadEvent = 0 <;> by_cases hf : s.slot_Events &&& PollerReadEvent = PollerReadEvent <;>
+    simp_all [andnot_eq_xor]
 
 theorem DelWrite_facts (s : poller) :
     (s.slot_Events &&& PollerWriteEvent ≠ PollerWriteEvent → s.DelWrite = (s, .nil)) ∧
@@ -111,7 +120,8 @@ theorem DelWrite_facts (s : poller) :
           then (Ext.modify, [s.slot_Fd, Int.ofNat (s.slot_Events ^^^ PollerWriteEvent).toNat])
           else (Ext.del, [s.slot_Fd])) :: s.calls) := by
   simp only [poller.DelWrite, ext_eq]
-  by_cases h0 : s.slot_Events ^^^ PollerWriteEvent = 0 <;> by_cases hf : s.slot_Events &&& PollerWriteEvent = PollerWriteEvent <;> simp_all
+  by_cases h0 : s.slot_Events ^^^ PollerWriteEvent = 0 <;> by_cases hf : s.slot_Events &&& PollerWriteEvent = PollerWriteEvent <;>
+    simp_all [andnot_eq_xor]
 
 theorem SetRead_eq (s : poller) : s.SetRead = s.setRW s.slot_Fd PollerReadEvent := by
   simp only [poller.SetRead]
